@@ -1,7 +1,8 @@
 (* C17 - boolean checkers evaluated on what haptools.clump wrote / returned.
    clump relation: the rows of the .clump file (all six columns; every member as printed);
    agree compares them with the model run with the code's float64 window test, holds checks the
-   greedy-clumping property on the IDs with the window as a rational test;
+   greedy-clumping property on the rows (a printed variant is resolved to a row of the loaded
+   table by ID, CHROM, POS; duplicate IDs are inside the domain) with the window as a rational test;
    computeld relation: the r2 returned by ComputeLD and the roots its cubic solver found. *)
 From HV Require Import Prelude PearsonQ Stats C17_Model.
 From Coq Require Import QArith.
@@ -13,6 +14,14 @@ Open Scope Z_scope.
    float), VARTYPE (0 SNP / 1 STR) - the five columns of a row, and the text of each member *)
 Definition vrow := (Z * Z * Z * Q * Z)%type.
 Definition orow := (vrow * list vrow)%type.
+(* what identifies a printed variant: ID, CHROM, POS.  Two rows of the loaded table that agree on
+   the three cannot be told apart in the .clump file; the checker resolves a printed variant to a
+   row with that signature (see greedy_okb) *)
+Definition sig := (Z * Z * Z)%type.
+Definition srow := (sig * list sig)%type.                  (* index, members *)
+Definition sig_eqb (a b : sig) : bool :=
+  let '(i, c, p) := a in let '(i', c', p') := b in (i =? i') && (c =? c') && (p =? p').
+Definition sv_sig (v : svar) : sig := (sv_id v, sv_chrom v, sv_pos v).
 Definition irow := (Z * list Z)%type.                      (* index ID, member IDs *)
 
 Record ccase := mkcc {
@@ -21,19 +30,22 @@ Record ccase := mkcc {
   (* the decimal the user typed for --clump-kb (the float64 it parses to is cc_kb); equal to the
      exact value of cc_kb when kb was given as a float *)
   cc_kbdec : Q;
-  (* Exact mode only: the r2 ComputeLD returned for (index ID, candidate ID), recorded from the run *)
-  cc_r2tab : list (Z * Z * option Q);
+  (* Exact mode only: the r2 ComputeLD returned for (index, candidate), each named by
+     (ID, CHROM, POS), recorded from the run *)
+  cc_r2tab : list (sig * sig * option Q);
   cc_obs : res (list orow)
 }.
 
-Definition tab_oracle (tab : list (Z * Z * option Q)) (iv c : svar) (gc gi : list (Z * Z)) : res (option Q) :=
-  match find (fun e : Z * Z * option Q => (fst (fst e) =? sv_id iv) && (snd (fst e) =? sv_id c)) tab with
+Definition tab_oracle (tab : list (sig * sig * option Q)) (iv c : svar) (gc gi : list (Z * Z)) : res (option Q) :=
+  match find (fun e : sig * sig * option Q => sig_eqb (fst (fst e)) (sv_sig iv) && sig_eqb (snd (fst e)) (sv_sig c)) tab with
   | Some e => Ok (snd e)
   | None => Err E_Unobserved
   end.
 
-Definition oracle_of (k : ccase) :=
-  if k_exact (cc_cfg k) then tab_oracle (cc_r2tab k) else pearson_oracle.
+Definition r2oracle := svar -> svar -> list (Z * Z) -> list (Z * Z) -> res (option Q).
+Definition oracle_for (c : cfg) (tab : list (sig * sig * option Q)) : r2oracle :=
+  if k_exact c then tab_oracle tab else pearson_oracle.
+Definition oracle_of (k : ccase) : r2oracle := oracle_for (cc_cfg k) (cc_r2tab k).
 
 Definition vrow_of (v : svar) : vrow := (sv_id v, sv_chrom v, sv_pos v, sv_p v, sv_type v).
 Definition vrow_id (r : vrow) : Z := fst (fst (fst (fst r))).
@@ -42,6 +54,10 @@ Definition rows_of (cl : list clump) : list orow :=
 Definition ids_of (cl : list clump) : list irow :=
   map (fun c : clump => (sv_id (fst c), map sv_id (snd c))) cl.
 Definition row_ids (r : orow) : irow := (vrow_id (fst r), map vrow_id (snd r)).
+Definition vrow_sig (r : vrow) : sig := let '(i, c, p, _, _) := r in (i, c, p).
+Definition row_sigs (r : orow) : srow := (vrow_sig (fst r), map vrow_sig (snd r)).
+Definition sigs_of (cl : list clump) : list srow :=
+  map (fun c : clump => (sv_sig (fst c), map sv_sig (snd c))) cl.
 
 Definition model_clump (k : ccase) : res (list orow) :=
   match clumpstr (oracle_of k) (win_float (cc_kb k)) (cc_cfg k) with Ok cl => Ok (rows_of cl) | Err e => Err e end.
@@ -74,57 +90,89 @@ Definition memZ (x : Z) (l : list Z) : bool := existsb (Z.eqb x) l.
 Fixpoint nodupb (l : list Z) : bool :=
   match l with [] => true | a :: r => negb (memZ a r) && nodupb r end.
 
-(* split the remaining table at the variant with the given ID *)
-Fixpoint split_at (x : Z) (l : list svar) : option (list svar * svar * list svar) :=
+(* split the remaining table at the first row with the given load key *)
+Fixpoint split_key (k : Z) (l : list svar) : option (list svar * svar * list svar) :=
   match l with
   | [] => None
-  | v :: r => if sv_id v =? x then Some ([], v, r)
-              else match split_at x r with
+  | v :: r => if sv_key v =? k then Some ([], v, r)
+              else match split_key k r with
                    | Some (pre, iv, post) => Some (v :: pre, iv, post)
                    | None => None end
   end.
 
-(* the members of one clump.  Two window predicates: [wlo iv c] = c is strictly within the window
-   under every reading of "the user's kb", [whi iv c] = under some reading (see holds_clump; the
-   two coincide except at a distance equal to the decimal typed).  A not-yet-clumped variant that
-   is inside for sure is listed iff it passes the r2 test; one outside for sure is not listed; one
-   in between may be listed only if it passes; a test the run did not record (Exact mode)
-   constrains nothing; every listed ID is that of a not-yet-clumped variant; nothing is listed
-   twice *)
-Definition members_ok (pass : svar -> svar -> option bool) (wlo whi : svar -> svar -> bool)
-           (iv : svar) (st : list svar) (ms : list Z) : bool :=
-  forallb (fun c =>
-     let listed := memZ (sv_id c) ms in
-     if wlo iv c then match pass iv c with Some b => Bool.eqb listed b | None => true end
-     else if whi iv c then match pass iv c with Some b => negb listed || b | None => true end
-     else negb listed) st
-  && forallb (fun x => existsb (fun c => sv_id c =? x) st) ms
-  && nodupb ms.
+(* the row a printed index stands for: among the not-yet-clumped rows with that signature the one
+   of smallest p, the first of those in file order (the only one that can be a greedy index) *)
+Fixpoint pick (s : sig) (best : option svar) (l : list svar) : option svar :=
+  match l with
+  | [] => best
+  | v :: r =>
+      if sig_eqb (sv_sig v) s && match best with None => true | Some b => Qlt_bool (sv_p v) (sv_p b) end
+      then pick s (Some v) r else pick s best r
+  end.
 
-(* [ei]: what an index must satisfy (and the set over which it is minimal / first among ties);
-   [es]: what must not be left when the file ends *)
-Fixpoint greedy_okb (ei es : svar -> bool) (wlo whi : svar -> svar -> bool)
-         (pass : svar -> svar -> option bool) (st : list svar) (obs : list irow) : bool :=
-  match obs with
-  | [] => forallb (fun v => negb (es v)) st                    (* stops only when no index is left *)
-  | (i, ms) :: rest =>
-      match split_at i st with
-      | None => false                                          (* not a not-yet-clumped variant *)
-      | Some (pre, iv, post) =>
-          ei iv
-          && forallb (fun v => negb (ei v) || Qle_bool (sv_p iv) (sv_p v)) st      (* smallest p *)
-          && forallb (fun v => negb (ei v) || Qlt_bool (sv_p iv) (sv_p v)) pre     (* file order on ties *)
-          && members_ok pass wlo whi iv st ms
-          && greedy_okb ei es wlo whi pass
-               (filter (fun v => negb (memZ (sv_id v) (i :: ms))) st) rest
+(* the rows a printed member list stands for: each printed member takes the first row with its
+   signature that no earlier member took (rows with one signature behave alike in the window and
+   r2 tests, so which of them is taken does not matter); None = some printed member is not a
+   not-yet-clumped row, or more members carry a signature than rows do *)
+Fixpoint take_sig (s : sig) (pool : list svar) : option (svar * list svar) :=
+  match pool with
+  | [] => None
+  | v :: r => if sig_eqb (sv_sig v) s then Some (v, r)
+              else match take_sig s r with
+                   | Some (w, r') => Some (w, v :: r')
+                   | None => None end
+  end.
+Fixpoint resolve (ms : list sig) (pool : list svar) : option (list svar) :=
+  match ms with
+  | [] => Some []
+  | s :: rest =>
+      match take_sig s pool with
+      | None => None
+      | Some (v, pool') => match resolve rest pool' with Some l => Some (v :: l) | None => None end
       end
   end.
 
-(* no variant in two clumps (as index or member) *)
-Definition all_ids (obs : list irow) : list Z := flat_map (fun r : irow => fst r :: filter (fun x => negb (x =? fst r)) (snd r)) obs.
+(* the members of one clump, as rows.  Two window predicates: [wlo iv c] = c is strictly within the
+   window under every reading of "the user's kb", [whi iv c] = under some reading (see holds_clump;
+   the two coincide except at a distance equal to the decimal typed).  A not-yet-clumped row that
+   is inside for sure is listed iff it passes the r2 test; one outside for sure is not listed; one
+   in between may be listed only if it passes; a test the run did not record (Exact mode)
+   constrains nothing.  (That every listed row is a not-yet-clumped row and none is listed twice
+   is what [resolve] establishes.) *)
+Definition members_ok (pass : svar -> svar -> option bool) (wlo whi : svar -> svar -> bool)
+           (iv : svar) (st : list svar) (ms : list svar) : bool :=
+  forallb (fun c =>
+     let listed := has_key (sv_key c) ms in
+     if wlo iv c then match pass iv c with Some b => Bool.eqb listed b | None => true end
+     else if whi iv c then match pass iv c with Some b => negb listed || b | None => true end
+     else negb listed) st.
 
-(* the quantifier: both tables load, IDs are distinct, every variant has exactly one
-   genotype record, SNP genotypes are complete and biallelic, kb is finite *)
+(* [ei]: what an index must satisfy (and the set over which it is minimal / first among ties);
+   [es]: what must not be left when the file ends.  The table that remains after a clump is the
+   table without the rows of the clump (by load key): a row is never in two clumps *)
+Fixpoint greedy_okb (ei es : svar -> bool) (wlo whi : svar -> svar -> bool)
+         (pass : svar -> svar -> option bool) (st : list svar) (obs : list srow) : bool :=
+  match obs with
+  | [] => forallb (fun v => negb (es v)) st                    (* stops only when no index is left *)
+  | (s, mss) :: rest =>
+      match pick s None st with
+      | None => false                                          (* not a not-yet-clumped variant *)
+      | Some b =>
+          match split_key (sv_key b) st, resolve mss st with
+          | Some (pre, iv, post), Some ms =>
+              sig_eqb (sv_sig iv) s
+              && ei iv
+              && forallb (fun v => negb (ei v) || Qle_bool (sv_p iv) (sv_p v)) st      (* smallest p *)
+              && forallb (fun v => negb (ei v) || Qlt_bool (sv_p iv) (sv_p v)) pre     (* file order on ties *)
+              && members_ok pass wlo whi iv st ms
+              && greedy_okb ei es wlo whi pass (remove_vars (ms ++ [iv]) st) rest
+          | _, _ => false
+          end
+      end
+  end.
+
+(* the quantifier: both tables load, every variant has exactly one genotype record, SNP
+   genotypes are complete and biallelic, kb is finite.  Variant IDs need not be distinct *)
 Definition stats_of (k : cfg) : option (list svar) :=
   match opt_load (k_hdr_snp k) (k_fields k) (k_p2 k) 0 (k_rows_snp k),
         opt_load (k_hdr_str k) (k_fields k) (k_p2 k) 1 (k_rows_str k) with
@@ -132,11 +180,11 @@ Definition stats_of (k : cfg) : option (list svar) :=
   | _, _ => None
   end.
 
-Definition passb (k : ccase) (gts : list gent) (iv c : svar) : option bool :=
-  match load_variant gts iv, load_variant gts c with
+Definition passb (c : cfg) (orc : r2oracle) (gts : list gent) (iv x : svar) : option bool :=
+  match load_variant gts iv, load_variant gts x with
   | Ok gi, Ok gc =>
-      match oracle_of k iv c gc gi with
-      | Ok (Some v) => Some (Qlt_bool (k_r2 (cc_cfg k)) v)
+      match orc iv x gc gi with
+      | Ok (Some v) => Some (Qlt_bool (k_r2 c) v)
       | Ok None => Some false
       | Err _ => None end
   | _, _ => None
@@ -146,33 +194,37 @@ Definition Qmin_b (a b : Q) : Q := if Qle_bool a b then a else b.
 Definition Qmax_b (a b : Q) : Q := if Qle_bool a b then b else a.
 
 (* "strictly within the kb window": |dpos| / 1000 < kb, decided over the rationals.  The user's kb
-   is the decimal typed (cc_kbdec) and the float64 it parses to (cc_kb, exact value kq); a variant
+   is the decimal typed (kbdec) and the float64 it parses to (exact value kq); a variant
    strictly within under both readings must be listed (if its r2 passes), one strictly within
    under neither must not be; where the readings differ - the distance equals the decimal typed
    and the float64 lies above it, e.g. --clump-kb 0.1 and 100 bp - nothing is demanded.
    Index eligibility: an index has p < p1 and is minimal / first among those (the property's
    words); the file may end only when no variant with p < p1 and p < 1 is left (for p1 <= 1 the
    same set; DESIGN.md section 10 for p1 > 1). *)
-Definition holds_clump (k : ccase) : bool :=
-  let c := cc_cfg k in
+Definition holds_core (c : cfg) (orc : r2oracle) (kq kbdec : Q) (o : res (list orow)) : bool :=
   if negb (Bool.eqb (is_some (k_rows_snp c)) (is_some (k_snps c))
            && Bool.eqb (is_some (k_rows_str c)) (is_some (k_strs c))
            && (is_some (k_snps c) || is_some (k_strs c))
            && negb (k_exact c && is_some (k_rows_str c))) then true else
   if match k_snps c with Some a => existsb snp_calls_bad (gs_vars a) | None => false end then true else
-  match stats_of c, merged_gts (k_snps c) (k_strs c), f2q (cc_kb k) with
-  | Some st, Ok gts, Some kq =>
-      if negb (nodupb (map sv_id st)) then true else
+  match stats_of c, merged_gts (k_snps c) (k_strs c) with
+  | Some st, Ok gts =>
       if negb (forallb (fun v => match load_variant gts v with Ok _ => true | Err _ => false end) st) then true else
-      match cc_obs k with
+      match o with
       | Err e => e =? E_Unobserved                 (* raises or does not terminate (Err 12) *)
       | Ok obs =>
           greedy_okb (below_p1 (k_p1 c)) (eligible (k_p1 c))
-                     (win_q (Qmin_b kq (cc_kbdec k))) (win_q (Qmax_b kq (cc_kbdec k)))
-                     (passb k gts) st (map row_ids obs)
-          && nodupb (all_ids (map row_ids obs))
+                     (win_q (Qmin_b kq kbdec)) (win_q (Qmax_b kq kbdec))
+                     (passb c orc gts) st (map row_sigs obs)
       end
-  | _, _, _ => true
+  | _, _ => true
+  end.
+
+(* kb not finite: outside the quantifier *)
+Definition holds_clump (k : ccase) : bool :=
+  match f2q (cc_kb k) with
+  | Some kq => holds_core (cc_cfg k) (oracle_of k) kq (cc_kbdec k) (cc_obs k)
+  | None => true
   end.
 
 Definition agree_clump (k : ccase) : bool :=
